@@ -833,5 +833,5 @@ func reverseHead(xs []string, n int) []string {
 
 func TestC18(t *testing.T) {
 	fuseh.LimitOpenFiles(1024)
-	drv.Main(t, drv.Driver{ID: "C18", Gen: gen18, Run: run18, CaseTimeout: 5 * time.Minute})
+	drv.Main(t, drv.Driver{ID: "C18", Gen: gen18, Run: run18, CaseTimeout: 30 * time.Minute})
 }
